@@ -628,8 +628,8 @@ func (g *pgen) funcDef() string {
 	return def
 }
 
-// genProgram returns a list of top-level statements (each a complete input)
-func genProgram(r *rng, nStmts int, wild, bigOK bool) []string {
+// genEvalProgram returns a list of top-level statements (each a complete input)
+func genEvalProgram(r *rng, nStmts int, wild, bigOK bool) []string {
 	g := &pgen{r: r, loopVar: map[string]bool{}, wild: wild, bigOK: bigOK}
 	var res []string
 	for i := 0; i < nStmts; i++ {
